@@ -71,6 +71,12 @@ def cases(tier, seed):
             for hk in ('TB', 'LB', 'LFt'):
                 for pol in ('fresh', 'recycle'):
                     yield [[list(s0), list(s1)], [[r] if r else []], pol, hk]
+    # the threads are started BEFORE a skipped / failing subtest of the same test
+    for s0 in [(k,) for k in KL] + [('TB', 'LB')]:
+        for s1 in one_:
+            for pol in ('fresh', 'recycle'):
+                for scr in ('sub_skip', 'sub:1,0,1', 'redir_sub_fail'):
+                    yield [[list(s0), list(s1)], [['never'] * len([k for k in s0 if KINDS[k][2]])], pol, None, scr]
     one = [()] + [(k,) for k in KL]
     # real threads: conformance of the virtual thread table with the platform
     for s0, s1 in itertools.product(one, repeat=2):
@@ -146,8 +152,12 @@ def parse_reports(text):
 
 
 def run_case(case):
-    seq, rels, mode, hookkind = case
+    seq, rels, mode, hookkind = case[:4]
     spec, hook_actions = build(seq, rels, hookkind)
+    if len(case) > 4:
+        # the first test goes on after starting its threads: a skipped or
+        # failing subtest (result events in the middle of the test)
+        spec['tests'][0]['s'] = case[4]
     worldrt.reset_hook_actions(hook_actions)
     viol = []
     saved = None
